@@ -79,9 +79,9 @@ func sha(b []byte) string {
 
 // RunPipeline performs the whole multi-stage build for the harness package
 // harnessRel (e.g. "internal/verif/c15") into build directory B.
-func RunPipeline(B, harnessRel, tier string) error {
+func RunPipeline(B, harnessRel, tier string, keep func(*File) bool) error {
 	repo := RepoDir()
-	u := Build(tier)
+	u := Build(tier).Filter(keep)
 	gen := filepath.Join(B, "gen")
 	os.RemoveAll(gen)
 	for _, d := range []string{"req", "out", "reg"} {
@@ -91,7 +91,7 @@ func RunPipeline(B, harnessRel, tier string) error {
 	}
 	st := &Status{BuildDir: B, Repo: repo, Tier: tier, Pkgs: map[string]*PkgStatus{}}
 	for _, f := range u.Files {
-		st.Pkgs[f.Pkg] = &PkgStatus{Name: f.Pkg}
+		st.Pkgs[f.Key] = &PkgStatus{Name: f.Key, Generated: true}
 	}
 
 	// 1. the generator, from the current working tree
@@ -115,7 +115,7 @@ func RunPipeline(B, harnessRel, tier string) error {
 		}
 		rs := &ReqStatus{Name: r.Name, Outputs: map[string]string{}}
 		for _, f := range r.Files {
-			rs.Files = append(rs.Files, f.Pkg)
+			rs.Files = append(rs.Files, f.Key)
 		}
 		tmp := filepath.Join(gen, "run-"+r.Name)
 		files, stderr, err := RunGenerator(bin, b, tmp)
@@ -149,11 +149,12 @@ func RunPipeline(B, harnessRel, tier string) error {
 	}
 	for _, f := range u.Files {
 		src := filepath.Join(outDir, f.Name+".go")
+		ps := st.Pkgs[f.Key]
 		if b, err := ioutil.ReadFile(src); err == nil {
-			ps := st.Pkgs[f.Pkg]
-			ps.Generated = true
-			ps.Lines = bytes.Count(b, []byte("\n"))
+			ps.Lines += bytes.Count(b, []byte("\n"))
 			ov.Replace[filepath.Join(repo, "internal/verif/c15gen", f.Name+".go")] = src
+		} else {
+			ps.Generated = false // a package is generated iff all its files are
 		}
 	}
 	ovPath := filepath.Join(B, "overlay-gen.json")
@@ -167,20 +168,22 @@ func RunPipeline(B, harnessRel, tier string) error {
 
 	// 4. compile every generated package on its own
 	var pkgs []string
+	seenDir := map[string]bool{}
 	for _, f := range u.Files {
-		if st.Pkgs[f.Pkg].Generated {
-			pkgs = append(pkgs, "./internal/verif/c15gen/"+f.Pkg)
+		if st.Pkgs[f.Key].Generated && !seenDir[f.Dir] {
+			seenDir[f.Dir] = true
+			pkgs = append(pkgs, "./internal/verif/c15gen/"+f.Dir)
 		}
 	}
 	if len(pkgs) > 0 {
 		out, err := runIn(repo, nil, "go", append([]string{"build", "-overlay", ovPath}, pkgs...)...)
 		failed := splitBuildErrors(out)
 		for _, f := range u.Files {
-			ps := st.Pkgs[f.Pkg]
+			ps := st.Pkgs[f.Key]
 			if !ps.Generated {
 				continue
 			}
-			if msg, bad := failed[ImportBase+f.Pkg]; bad {
+			if msg, bad := failed[ImportBase+f.Dir]; bad {
 				ps.CompileErr = msg
 			} else {
 				ps.Compiled = true
@@ -193,11 +196,11 @@ func RunPipeline(B, harnessRel, tier string) error {
 		for changed := true; changed; {
 			changed = false
 			for _, f := range u.Files {
-				ps := st.Pkgs[f.Pkg]
+				ps := st.Pkgs[f.Key]
 				for _, im := range f.Imports {
-					if ps.Compiled && !st.Pkgs[im.Pkg].Compiled {
+					if ps.Compiled && !st.Pkgs[im.Key].Compiled {
 						ps.Compiled = false
-						ps.CompileErr = "import " + im.Pkg + " does not compile"
+						ps.CompileErr = "import " + im.Key + " does not compile"
 						changed = true
 					}
 				}
@@ -215,12 +218,12 @@ func RunPipeline(B, harnessRel, tier string) error {
 			}
 		}
 		for _, f := range u.Files {
-			ps := st.Pkgs[f.Pkg]
+			ps := st.Pkgs[f.Key]
 			ps.Linked = ps.Compiled && ps.LinkErr == ""
 			if !ps.Linked {
 				continue
 			}
-			name := "zz_reg_" + f.Pkg + ".go"
+			name := "zz_reg_" + f.Key + "__" + strconv.FormatUint(f.ID, 16) + ".go"
 			if err := ioutil.WriteFile(filepath.Join(regDir, name), []byte(RegistrySource(f)), 0644); err != nil {
 				return err
 			}
@@ -244,7 +247,7 @@ func RunPipeline(B, harnessRel, tier string) error {
 		// attribute the errors to registry files
 		bad := map[string]string{}
 		for _, line := range strings.Split(out, "\n") {
-			if m := regexp.MustCompile(`zz_reg_([a-z0-9]+)\.go:\d+:\d+: (.*)`).FindStringSubmatch(line); m != nil {
+			if m := regexp.MustCompile(`zz_reg_([a-z0-9_]+?)__[0-9a-f]+\.go:\d+:\d+: (.*)`).FindStringSubmatch(line); m != nil {
 				if len(bad[m[1]]) < 1500 {
 					bad[m[1]] += m[2] + "\n"
 				}
@@ -282,10 +285,10 @@ func splitBuildErrors(out string) map[string]string {
 // every type, constructor, constant the generator documents for the nodes of f.
 func RegistrySource(f *File) string {
 	var b bytes.Buffer
-	p := f.Pkg
+	p := "gen"
 	fmt.Fprintf(&b, "// +build %s\n\n// Code generated by the C15 pipeline. DO NOT EDIT.\n\npackage main\n\nimport (\n", genTag)
 	fmt.Fprintf(&b, "\tcapnp \"capnproto.org/go/capnp/v3\"\n\t\"capnproto.org/go/capnp/v3/internal/verif/c15/sgen\"\n\t%s %q\n)\n\n", p, f.Import)
-	fmt.Fprintf(&b, "var _ capnp.Struct\n\nfunc init() {\n\tp := sgen.NewPkgEntry(%q)\n", p)
+	fmt.Fprintf(&b, "var _ capnp.Struct\n\nfunc init() {\n\tp := sgen.NewPkgEntry(%q)\n", f.Key)
 	for _, n := range f.all {
 		g := p + "." + n.GoName
 		switch {
